@@ -829,11 +829,20 @@ fn oracle(run: &mut Run, w: &World, rvar: f64, msg: &[u8], buf: usize, in_deny: 
             ofail(run, "c22_parser_facts", &attrs(abs), "NTPv5 packet accepted whose length is not a multiple of 4");
         }
     }
-    // hypothesis `Accounted` of the C17 theorems: a parsed request holds its identifier fields
+    // hypotheses of C17.fits_unless_known_cause, evaluated on every parsed request:
+    //   Accounted   48 + wire of the clear-text / authenticated fields + the encrypted field(s) <= request length
+    //   NonceLong   (authenticated requests with nonces >= 16) 40 + wire of the decrypted fields <= encrypted field
+    //   DraftPresent (accepted v5 packets) a draft identification of >= 23 octets is among the fields
     if abs.parse == "ok" || abs.parse == "dec" {
-        let need: usize = 48 + abs.uids_out.iter().map(|u| next4(4 + u.len())).sum::<usize>();
-        if need > msg.len() {
-            ofail(run, "c17_accounting", &attrs(abs), &format!("identifier fields account for {} bytes, request has {}", need, msg.len()));
+        let (sum_ua, sum_e, draft, encw) = req_wire_sums(&abs.text);
+        if 48 + sum_ua + encw > msg.len() {
+            ofail(run, "c17_accounting", &attrs(abs), &format!("fields account for {} bytes, request has {}", 48 + sum_ua + encw, msg.len()));
+        }
+        if abs.has_cookie && abs.min_nonce >= 16 && 40 + sum_e > encw {
+            ofail(run, "c17_accounting", &attrs(abs), &format!("decrypted fields account for {} bytes, encrypted field has {}", 40 + sum_e, encw));
+        }
+        if abs.parse == "ok" && abs.version == 5 && !draft {
+            ofail(run, "c17_accounting", &attrs(abs), "accepted NTPv5 packet without draft identification");
         }
     }
     // ---------------- C19
@@ -849,7 +858,16 @@ fn oracle(run: &mut Run, w: &World, rvar: f64, msg: &[u8], buf: usize, in_deny: 
     if abs.has_cookie && kind == "time" {
         if let Some(p) = &out.parsed {
             if p.decrypt_failed || sess.is_none() || !p.has_enc {
-                ofail(run, "c19_not_authenticated", &attrs(abs), "time answer cannot be authenticated with the s2c key");
+                // known cause: no identifier to echo and no cookie / placeholder among the first eight fields
+                let get = |k: &str| -> Vec<String> {
+                    let v = abs.text.split(' ').find_map(|w| w.strip_prefix(&format!("{}=", k)).map(|v| v.to_string())).unwrap_or_default();
+                    if v == "-" || v.is_empty() { vec![] } else { v.split(',').map(|x| x.to_string()).collect() }
+                };
+                let (a, e) = (get("A"), get("E"));
+                let has_uid = a.iter().any(|t| t.starts_with("u:"));
+                let ck_first8 = a.iter().chain(e.iter()).take(8).any(|t| t.starts_with("c:") || t.starts_with("p:"));
+                let cause = if !p.has_enc && !p.decrypt_failed && abs.version == 4 && !has_uid && !ck_first8 { "empty-answer" } else { "other" };
+                ofail(run, "c19_not_authenticated", &format!("{} cause={}", attrs(abs), cause), "time answer cannot be authenticated with the s2c key");
             }
             if !p.untrusted.is_empty() && !(abs.version == 5 && p.untrusted.iter().all(|f| f.starts_with("k:f501"))) {
                 ofail(run, "c19_unauthenticated_content", &attrs(abs), &format!("unauthenticated fields in NTS time answer: {:?}", p.untrusted));
@@ -941,6 +959,11 @@ fn growth_cause(msg: &[u8], abs: &Abs, big: &Outcome) -> &'static str {
         }
     }
     let nonce_growth = if has_enc && abs.min_nonce < 16 { 16 - next4(abs.min_nonce) } else { 0 };
+    // an NTPv5 answer always carries the draft identification (28 octets); an NTPv5 request that fails
+    // authentication is answered without having been checked for one
+    let (_, _, req_draft, _) = req_wire_sums(&abs.text);
+    let resp_draft = big.parsed.as_ref().map(|p| p.untrusted.iter().chain(p.auth.iter()).any(|f| f.starts_with("d:"))).unwrap_or(false);
+    let draft_growth = if abs.version == 5 && resp_draft && !req_draft { 28 } else { 0 };
     if overflow == 0 {
         "none"
     } else if uid_growth >= overflow {
@@ -949,9 +972,38 @@ fn growth_cause(msg: &[u8], abs: &Abs, big: &Outcome) -> &'static str {
         "short-nonce"
     } else if uid_growth + nonce_growth >= overflow {
         "short-uid+nonce"
+    } else if draft_growth > 0 && uid_growth + nonce_growth + draft_growth >= overflow {
+        "v5-no-draft"
     } else {
         "other"
     }
+}
+
+/// from the abstract request line: wire octets of the fields in U and A, of the fields in E, whether a draft
+/// identification of at least 23 octets is among U / A, and the `encw` value
+fn req_wire_sums(text: &str) -> (usize, usize, bool, usize) {
+    let get = |k: &str| -> String {
+        text.split(' ').find_map(|w| w.strip_prefix(&format!("{}=", k)).map(|v| v.to_string())).unwrap_or_default()
+    };
+    let wire = |tok: &str| -> usize {
+        let parts: Vec<&str> = tok.split(':').collect();
+        match parts.as_slice() {
+            ["u", h] => next4(4 + if *h == "-" { 0 } else { h.len() / 2 }),
+            ["c", n] | ["p", n] | ["d", n] | ["r", n] | ["g", n] => next4(4 + n.parse::<usize>().unwrap_or(0)),
+            ["q", _, l] => next4(4 + l.parse::<usize>().unwrap_or(0)),
+            ["k", _, n] => next4(4 + n.parse::<usize>().unwrap_or(0)),
+            _ => 0,
+        }
+    };
+    let list = |k: &str| -> Vec<String> {
+        let v = get(k);
+        if v == "-" || v.is_empty() { vec![] } else { v.split(',').map(|x| x.to_string()).collect() }
+    };
+    let (u, a, e) = (list("U"), list("A"), list("E"));
+    let sum_ua: usize = u.iter().chain(a.iter()).map(|t| wire(t)).sum();
+    let sum_e: usize = e.iter().map(|t| wire(t)).sum();
+    let draft = u.iter().chain(a.iter()).any(|t| t.strip_prefix("d:").and_then(|n| n.parse::<usize>().ok()).map(|n| n >= 23).unwrap_or(false));
+    (sum_ua, sum_e, draft, get("encw").parse().unwrap_or(0))
 }
 
 // ------------------------------------------------------------------------------------------------ generators
@@ -1266,6 +1318,8 @@ fn gen_session(rng: &mut Rng, keyset: &KeySet) -> NtsCtx {
 }
 
 thread_local! {
+    /// corpus cases: force the number of leading unknown fields of `gen_nts` (no identifier then)
+    static FORCE_LEAD: std::cell::Cell<Option<usize>> = const { std::cell::Cell::new(None) };
     /// corpus cases: force the nonce-length choice of `gen_nts`
     static FORCE_NONCE: std::cell::Cell<Option<u64>> = const { std::cell::Cell::new(None) };
 }
@@ -1293,10 +1347,23 @@ fn gen_nts(rng: &mut Rng, v5: bool, ctx: &NtsCtx, id_offset: u32, nkeys: usize) 
     let ul = if v5 { ul } else { ul & !3 };
     let mut auth: Vec<Vec<u8>> = vec![];
     let mut inner: Vec<Vec<u8>> = vec![];
-    auth.push(field(0x0104, &rng.bytes(ul)));
-    if rng.chance(1, 12) {
-        let l = uid_len(rng);
-        auth.push(field(0x0104, &rng.bytes(if v5 { l } else { l & !3 })));
+    // F-C19a: some requests carry no identifier and 6..10 unknown fields before the cookie, so that the cookie
+    // (and the placeholders) sit beyond the first eight authenticated fields
+    let lead = match FORCE_LEAD.with(|c| c.get()) {
+        Some(n) => n,
+        None => if rng.chance(1, 40) { rng.usize(6, 10) } else { 0 },
+    };
+    if lead == 0 {
+        auth.push(field(0x0104, &rng.bytes(ul)));
+        if rng.chance(1, 12) {
+            let l = uid_len(rng);
+            auth.push(field(0x0104, &rng.bytes(if v5 { l } else { l & !3 })));
+        }
+    } else {
+        for _ in 0..lead {
+            let n = 4 * rng.usize(1, 3);
+            auth.push(field(0x4242, &rng.bytes(n)));
+        }
     }
     auth.push(field(0x0204, &cookie));
     let nph = match rng.below(8) {
@@ -1453,7 +1520,22 @@ fn witness(idx: u64) -> Option<Vec<u8>> {
 }
 
 fn gen_case_with(rng: &mut Rng, idx: u64, malformed: bool, hostile_info: bool) -> Vec<String> {
-    let (cfgline, file, id_offset, _primary, nkeys) = gen_cfg(rng);
+    let (mut cfgline, file, id_offset, _primary, nkeys) = gen_cfg(rng);
+    if !malformed && idx <= 6 {
+        // corpus cases run under a permissive policy so that the witness request is really handled
+        cfgline = cfgline
+            .split(' ')
+            .map(|w| match w.split_once('=') {
+                Some(("dlist", _)) => "dlist=-".to_string(),
+                Some(("alist", _)) => "alist=0.0.0.0/0;::/0".to_string(),
+                Some(("rnts", _)) => "rnts=none".to_string(),
+                Some(("vers", _)) => "vers=3,4,5".to_string(),
+                Some(("cache", _)) => "cache=0".to_string(),
+                _ => w.to_string(),
+            })
+            .collect::<Vec<_>>()
+            .join(" ");
+    }
     let keyset = load_keyset(&file);
     let (mut srvline, vbt) = gen_cfgsrv(rng, hostile_info);
     if !malformed && idx == 2 {
@@ -1480,6 +1562,26 @@ fn gen_case_with(rng: &mut Rng, idx: u64, malformed: bool, hostile_info: bool) -
             if let Some(l) = m.last_mut() {
                 *l ^= 1;
             }
+            m
+        } else if !malformed && k == 0 && idx == 6 {
+            // F-C19a: valid NTS NTPv4 request without identifier whose cookie is the ninth authenticated field:
+            // the time answer has neither authenticated nor encrypted fields and is sent without authenticator
+            FORCE_NONCE.with(|c| c.set(Some(47)));
+            FORCE_LEAD.with(|c| c.set(Some(8)));
+            let m = gen_nts(rng, false, &ctx, id_offset, nkeys);
+            FORCE_LEAD.with(|c| c.set(None));
+            FORCE_NONCE.with(|c| c.set(None));
+            m
+        } else if !malformed && k == 0 && idx == 5 {
+            // F-C17d: NTPv5 client header + an (undecryptable) encrypted field, no draft identification: 56 octets,
+            // the NTS-NAK answer carries the draft identification and needs 76
+            let mut m = vec![0u8; 48];
+            m[0] = (5 << 3) | 3;
+            m[2] = 6;
+            for i in 24..32 {
+                m[i] = i as u8;
+            }
+            m.extend_from_slice(&[0x04, 0x04, 0x00, 0x08, 0, 0, 0, 0]);
             m
         } else if !malformed && k == 0 && idx == 4 {
             // F-C22a: request nonce of 8 octets (tripped a debug assertion in the parser)
@@ -1532,7 +1634,7 @@ fn gen_case_with(rng: &mut Rng, idx: u64, malformed: bool, hostile_info: bool) -
             _ => vbt.wrapping_add(rng.below(1 << 44)),
         } };
         let now = recv.wrapping_add(rng.below(1 << 24));
-        let buf = match rng.below(10) {
+        let buf = match if !malformed && k == 0 && idx <= 6 { 9 } else { rng.below(10) } {
             0 => "4096".to_string(),
             1 => rng.usize(0, 300).to_string(),
             2 => (msg.len() + 4).to_string(),
